@@ -4,6 +4,7 @@ from shexer.core.instances.annotators.strategy_mode.all_classes_mode import AllC
 from shexer.core.instances.annotators.strategy_mode.shape_qualifiers_mode import ShapeQualifiersMode
 from shexer.core.instances.annotators.strategy_mode.compound_strategy_mode import CompoundStrategyMode
 from shexer.core.instances.annotators.strategy_mode.instance_cap_mode import InstanceCapMode
+from shexer.model.Literal import Literal
 
 
 class BaseAnnotator(object):
@@ -27,6 +28,8 @@ class BaseAnnotator(object):
         self._strategy_mode = self._get_proper_strategy()
 
     def is_relevant_triple(self, a_triple):
+        if isinstance(a_triple[_O], Literal):  # A literal is never a class (nor an instance of a qualifier shape)
+            return False
         return self._strategy_mode.is_relevant_triple(a_triple)
 
     def annotate_triple(self, a_triple):
